@@ -2,6 +2,9 @@
 """Case generators.  Every random choice comes from one random.Random(seed)."""
 import random
 import struct
+import sys
+
+sys.setrecursionlimit(100000)
 
 from vplib import hexs
 
@@ -494,14 +497,19 @@ def rand_elem(r, depth, allow_asg):
     return rand_expr(r, depth, allow_asg, True)
 
 
+def seq_len(r):
+    """mostly 2-4 elements, now and then up to 9"""
+    return r.randint(2, 4) if r.random() < 0.9 else r.randint(5, 9)
+
+
 def rand_seq(r, depth, allow_asg=True):
     k = r.random()
     if k < 0.4:
-        return ("tuple", [rand_elem(r, depth, allow_asg) for _ in range(r.randint(2, 4))])
+        return ("tuple", [rand_elem(r, depth, allow_asg) for _ in range(seq_len(r))])
     if k < 0.7:
-        return ("chain", [rand_elem(r, depth, allow_asg) for _ in range(r.randint(2, 4))])
+        return ("chain", [rand_elem(r, depth, allow_asg) for _ in range(seq_len(r))])
     elems = []
-    for _ in range(r.randint(2, 4)):
+    for _ in range(seq_len(r)):
         if r.random() < 0.5:
             elems.append(("tuple", [rand_elem(r, depth, allow_asg) for _ in range(r.randint(2, 3))]))
         else:
